@@ -140,6 +140,10 @@ def handleSigPair (args obs : List String) : Verdict :=
         let untouched := kv obs "restored" == some "1" && kv obs "guards" == some "0" &&
                          (kv obs "os" == none || kv obs "os" == some "0")
         let pOk := lv || ((if same then out == "accept" else out == "sigpanic") && (out == "accept" || untouched))
+        -- the gate as translated, on the two texts as spelled (not for pairs that differ in lifetimes only:
+        -- their recorded texts are rustc's, with lifetimes)
+        let ns2 := (parseDescr ns1 db).map (·.2) |>.getD ns1
+        Gen.withGen' (if lv then none else Gen.sigGate false (spell ns2 ra) (spell ns2 rb) out) <|
         { agree := agree, propOk := pOk,
           branch := "sigpair-" ++ form ++ (if lv then "+lifetime-only" else if same then "+same" else "+different"),
           detail := (if agree then "" else "model=" ++ (if mAccept then "accept" else "refuse")) ++
@@ -176,6 +180,7 @@ def handleSigAsync (args obs : List String) : Verdict :=
     let m := gate (renderFn (poll it)) (renderFn (poll iu))
     let out := obs.headD "?"
     let want := if t == u then "accept" else "sigpanic"
+    Gen.withGen' (Gen.sigGate true (spell ["T1", "T2", "T3", "T4", "T5", "T6", "Poll"] (renderFn (poll it))) (spell ["T1", "T2", "T3", "T4", "T5", "T6", "Poll"] (renderFn (poll iu))) out) <|
     { agree := out == (if m then "accept" else "sigpanic"), propOk := out == want,
       branch := "sigasync" ++ (if t == u then "+same" else "+different"),
       detail := if out == want then "" else (if t == u then " key=c09.async-identical-refused" else " key=c09.async-different-accepted") }
